@@ -618,9 +618,22 @@ func genC12(r *rand.Rand, tier string) []Case {
 func init() {
 	register(&Prop{
 		ID: "C12", Num: 12,
-		Gen:  genC12,
-		New:  func() Case { return &c12Case{} },
-		Rule: "cut: files of 1-5 adversarial records per compression type (plus files with nil records between data records, and files with records of 512 KiB+ / 1 MiB+ cut at sampled lengths), every truncation length 0..size, sequential reader, ReadNextAt at every record offset and two read/skip programs (skip even / read odd positions and the reverse) over every cut; hdr: every header byte of every record x all 255 other values (short files) or {00,ff,91,8d,4c,01,80} (longer files), both readers; filehdr: version 0..9 x compression 0..6 plus large values. Non-trivial: >=2 records (or file-header grid).",
+		Gen: func(r *rand.Rand, tier string) []Case {
+			var out []Case
+			for _, c := range genC12(r, tier) {
+				out = append(out, &c12Any{Cur: c.(*c12Case)})
+			}
+			for _, f := range []string{"v3_compat/recordio_UncompressedNilAndEmptyRecord", "v3_compat/recordio_UncompressedSingleRecord", "v2_compat/recordio_UncompressedSingleRecord",
+				"v3_compat/recordio_UncompressedMagicNumberContent", "v2_compat/recordio_UncompressedWriterMultiRecord_asc", "v3_compat/recordio_SnappyWriterMultiRecord_asc",
+				"v2_compat/recordio_SnappyWriterMultiRecord_asc", "v1_compat/recordio_UncompressedSingleRecord"} {
+				if _, err := os.Stat(filepath.Join(repoRoot, "recordio", "test_files", f)); err == nil {
+					out = append(out, &c12Any{Legacy: &c12Legacy{File: f}})
+				}
+			}
+			return out
+		},
+		New:  func() Case { return &c12Any{} },
+		Rule: "fixtures of the older format versions (recordio/test_files/v1..v3_compat) cut at every length (sampled around the record starts for the 30 KiB ones): both readers return only records of the uncut file, in order; cut: files of 1-5 adversarial records per compression type (plus files with nil records between data records, and files with records of 512 KiB+ / 1 MiB+ cut at sampled lengths), every truncation length 0..size, sequential reader, ReadNextAt at every record offset and two read/skip programs (skip even / read odd positions and the reverse) over every cut; hdr: every header byte of every record x all 255 other values (short files) or {00,ff,91,8d,4c,01,80} (longer files), both readers; filehdr: version 0..9 x compression 0..6 plus large values. Non-trivial: >=2 records (or file-header grid).",
 	})
 }
 
